@@ -6,4 +6,5 @@ CONSTANTS
   PropName = {"displayname", "color"}
   Value = {1, 2}
   MaxHist = 100
+  MaxInstr = 3
 CHECK_DEADLOCK FALSE
